@@ -2,6 +2,7 @@ package constraint
 
 import (
 	"fmt"
+	"reflect"
 	"sync"
 )
 
@@ -21,6 +22,7 @@ type BlueprintLookupHint[E Element] struct {
 	// cache the resolved entries by the solver
 	cachedEntries []E
 	cachedOffset  int
+	cachedFor     uintptr // identity of the solver which resolved cachedEntries
 	lock          sync.Mutex
 }
 
@@ -31,23 +33,8 @@ var _ BlueprintStateful[U64] = (*BlueprintLookupHint[U64])(nil)
 func (b *BlueprintLookupHint[E]) Solve(s Solver[E], inst Instruction) error {
 	nbEntries := int(inst.Calldata[1])
 
-	// check if we already cached the entries
-	b.lock.Lock()
-	if len(b.cachedEntries) < nbEntries {
-		// we need to cache more entries
-		offset, delta := b.cachedOffset, 0
-		for i := len(b.cachedEntries); i < nbEntries; i++ {
-			var zero E
-			b.cachedEntries = append(b.cachedEntries, zero)
-			b.cachedEntries[i], delta = s.Read(b.EntriesCalldata[offset:])
-			offset += delta
-		}
-		b.cachedOffset = offset
-	}
-	b.lock.Unlock()
-
 	// we only append to the entries and never resize the slice; so we can access these indices safely
-	entries := b.cachedEntries[:nbEntries]
+	entries := b.resolveEntries(s, nbEntries)
 
 	nbInputs := int(inst.Calldata[2])
 
@@ -73,19 +60,64 @@ func (b *BlueprintLookupHint[E]) Solve(s Solver[E], inst Instruction) error {
 	return nil
 }
 
-func (b *BlueprintLookupHint[E]) Reset() {
-	// first we need to compute the capacity; that is 1 element per linear expression in the entries.
-	// this must be accurate since solver is multi threaded and we don't want to resize the slice
-	// while the solver is running.
+// resolveEntries returns the first nbEntries entries of the table as resolved by solver s.
+//
+// The blueprint (hence the cache) is shared by all the solvers of a constraint system, which
+// may run concurrently, while the resolved entries depend on the witness: the cache is only
+// valid for the solver which filled it and is rebuilt when another solver comes in.
+func (b *BlueprintLookupHint[E]) resolveEntries(s Solver[E], nbEntries int) []E {
+	b.lock.Lock()
+	defer b.lock.Unlock()
+
+	if id := solverIdentity(s); id == 0 || id != b.cachedFor {
+		b.cachedEntries = make([]E, 0, b.entriesCapacity())
+		b.cachedOffset = 0
+		b.cachedFor = id
+	}
+
+	// check if we already cached the entries
+	if len(b.cachedEntries) < nbEntries {
+		// we need to cache more entries
+		offset, delta := b.cachedOffset, 0
+		for i := len(b.cachedEntries); i < nbEntries; i++ {
+			var zero E
+			b.cachedEntries = append(b.cachedEntries, zero)
+			b.cachedEntries[i], delta = s.Read(b.EntriesCalldata[offset:])
+			offset += delta
+		}
+		b.cachedOffset = offset
+	}
+	return b.cachedEntries[:nbEntries]
+}
+
+// solverIdentity returns a value identifying a running solver (0 if it cannot be identified).
+// It does not keep the solver alive: Reset is called at the start of every solve.
+func solverIdentity[E Element](s Solver[E]) uintptr {
+	if v := reflect.ValueOf(s); v.Kind() == reflect.Pointer {
+		return v.Pointer()
+	}
+	return 0
+}
+
+// entriesCapacity returns the number of entries of the table; that is 1 element per linear
+// expression in the entries. This must be accurate since solver is multi threaded and we don't
+// want to resize the slice while the solver is running.
+func (b *BlueprintLookupHint[E]) entriesCapacity() int {
 	capacity := 0
 	for i := 0; i < len(b.EntriesCalldata); i++ {
 		n := int(b.EntriesCalldata[i]) // length of the linear expression
 		capacity++
 		i += 2 * n // skip the linear expression
 	}
+	return capacity
+}
 
-	b.cachedEntries = make([]E, 0, capacity)
+func (b *BlueprintLookupHint[E]) Reset() {
+	b.lock.Lock()
+	defer b.lock.Unlock()
+	b.cachedEntries = make([]E, 0, b.entriesCapacity())
 	b.cachedOffset = 0
+	b.cachedFor = 0
 }
 
 func (b *BlueprintLookupHint[E]) CalldataSize() int {
